@@ -4,11 +4,15 @@ Model: Rip/Model/Cache.lean (truth answers of the tail-scanning status queries, 
 scan, the doubling-window loop, validate-then-fall-back). Proofs: Rip/Lemmas/Cache.lean. Witnesses:
 Rip/Cex/C04.lean. Regenerated fragment: Rip/Gen/TailLoops.lean (shape of every doubling-window loop
 of continuities.rs, the fall-back conditions and scan_tail's head check, re-extracted on every run).
-The other read capabilities (replay, cut points, compaction status, compiled context, branch /
-handoff cut) are tied by the as-found vs caches-removed comparison only; their truth semantics are
-the subject of C09, C08 and C10.
+The windowed read of the full sidecar through its seek index (the compile input's third read path)
+is modelled at byte-offset level in Rip/Model/SeekIndex.lean, proofs in Rip/Lemmas/SeekIndex.lean,
+regenerated fragment Rip/Gen/SeekUse.lean. The other read capabilities (replay, cut points,
+compaction status, branch / handoff cut) are tied by the as-found vs caches-removed comparison only;
+their truth semantics are the subject of C09, C08 and C10.
 -/
 import Rip.Lemmas.Cache
+import Rip.Lemmas.SeekIndex
+import Rip.Gen.SeekUse
 import Rip.Cex.C04
 import Rip.Gen.TailLoops
 namespace Rip.Props.C04
@@ -23,8 +27,8 @@ def genShape : Shape :=
 
 /-- **obligations over the regenerated source**: every doubling-window loop leaves at the largest
 window and doubles its window; the selection-status loop rescans each window from scratch; both
-status queries fall back to the truth log when their scan was not enough. (The head check is not in
-the code: `suffix_only_*` below is about what it would buy.) -/
+status queries fall back to the truth log when their scan was not enough; `scan_tail` rejects a file
+that it read to its start and that does not begin at seq 0 (the head check). -/
 theorem gen_loops_current :
     genShape = current ∧
     Rip.Gen.TailLoops.loops.length = 5 ∧
@@ -77,21 +81,30 @@ theorem wrong_before_repair :
 /-! ### faulty caches: what is and is not detected (`_partial`: the full statement "for ALL cache
 states" is false of the code; the two excluded classes are recorded known findings) -/
 
-/-- a cache file that holds only a suffix of the thread (lost, then recreated by later appends) gives
-a WRONG answer with the code as it is … -/
+/-- a cache file that holds only a suffix of the thread (lost, then recreated by later appends) gave
+a WRONG answer before `scan_tail` had its head check (`current'` is that code) … -/
 theorem suffix_only_wrong_now : ∃ (fs cs : List F) (limit w0 max fuel : Nat),
     (∃ pre, fs = pre ++ cs) ∧ cs ≠ [] ∧
     selectionFast Rip.Cex.C04.current' fs cs limit w0 max fuel ≠ some (selectionTruth fs limit) ∧
     selectionFast Rip.Cex.C04.current' fs cs limit w0 max fuel ≠ none :=
   Rip.Cex.C04.suffix_only_cache_wrong_now
 
-/-- … and would be harmless with a head check in the tail scan (a scan that reaches the start of the
-file must begin at seq 0): proved for every valid thread, every non-empty suffix, every window schedule -/
+/-- … and is harmless with the head check in the tail scan (a scan that reaches the start of the
+file must begin at seq 0): proved for every valid thread, every non-empty suffix, every window
+schedule — first for the shape `repaired`, then (`suffix_only_safe_now`) for the shape regenerated
+from the current source -/
 theorem suffix_only_safe_with_head_check (fs cs : List F) (hv : Valid fs) (hs : SuffixOf cs fs) (hne : cs ≠ [])
     (limit w0 max : Nat) (hw : 0 < w0) :
     (∃ fuel, selectionFast repaired fs cs limit w0 max fuel = some (selectionTruth fs limit)) ∧
     (∃ fuel, cursorFast repaired fs cs w0 max fuel = some (cursorTruth fs)) :=
   ⟨selection_suffix_safe fs cs hv hs hne limit w0 max hw, cursor_suffix_safe fs cs hv hs hne w0 max hw⟩
+
+theorem suffix_only_safe_now (fs cs : List F) (hv : Valid fs) (hs : SuffixOf cs fs) (hne : cs ≠ [])
+    (limit w0 max : Nat) (hw : 0 < w0) :
+    (∃ fuel, selectionFast genShape fs cs limit w0 max fuel = some (selectionTruth fs limit)) ∧
+    (∃ fuel, cursorFast genShape fs cs w0 max fuel = some (cursorTruth fs)) := by
+  rw [gen_loops_current.1]
+  exact ⟨selection_suffix_safe fs cs hv hs hne limit w0 max hw, cursor_suffix_safe fs cs hv hs hne w0 max hw⟩
 
 /-- a cache file rolled back to an earlier version (a prefix of the thread) is not detectable by
 these validators even with the head check: the answer is stale -/
@@ -100,5 +113,62 @@ theorem prefix_only_wrong_even_with_head_check : ∃ (fs cs : List F) (limit w0 
     selectionFast repaired fs cs limit w0 max fuel ≠ some (selectionTruth fs limit) ∧
     selectionFast repaired fs cs limit w0 max fuel ≠ none :=
   Rip.Cex.C04.prefix_only_cache_wrong_even_repaired
+
+/-! ### the seek index of the full sidecar: ANY index content is harmless -/
+
+section Seek
+open Rip.SeekIndex
+
+/-- **obligation over the regenerated source**: `best_offset_for_seq` looks the entry up, checks it
+against the sidecar line it points at with the failure propagated, and only then reads its offset;
+nobody else reads an entry's offset except the loader (monotonicity) and the check itself; both
+forward scans of the window read seek to exactly that offset. This is `checkUse = true`. -/
+theorem gen_seek_entry_checked_at_use :
+    Rip.Gen.SeekUse.bestOffsetTokens = [1, 2, 3] ∧
+    (Rip.Gen.SeekUse.offsetReaders.map (·.1)).all (fun f =>
+      f == Rip.Gen.SeekUse.h_best_offset_for_seq || f == Rip.Gen.SeekUse.h_load_seq_index_v1 ||
+      f == Rip.Gen.SeekUse.h_validate_seq_index_against_sidecar) = true ∧
+    Rip.Gen.SeekUse.seekStarts.contains
+      (Rip.Gen.SeekUse.h_boundary_pos_for_seq_v1, Rip.Gen.SeekUse.h_start_offset) = true ∧
+    Rip.Gen.SeekUse.seekStarts.contains
+      (Rip.Gen.SeekUse.h_window_recent_messages_v1_from_cut_v1, Rip.Gen.SeekUse.h_start_offset) = true ∧
+    (Rip.Gen.SeekUse.seekStarts.filter (fun p =>
+      p.1 == Rip.Gen.SeekUse.h_window_recent_messages_v1_from_cut_v1 ||
+      p.1 == Rip.Gen.SeekUse.h_boundary_pos_for_seq_v1)).length = 2 := by decide
+
+/-- for every sidecar with increasing seqs, EVERY content of the index file (missing, rejected and
+rebuilt, stale, wrong in any entry), every cut, limit, stride and back-scan budget: when the window
+read answers at all, it answers what the index-free read answers -/
+theorem seek_index_transparent (stride budget : Nat) (ls : List Line) (file : Option (List Entry))
+    (fromSeq limit : Nat) (hs : Sorted ls) (r : List Nat)
+    (h : window true stride budget ls file fromSeq limit = some r) :
+    r = windowLinear budget ls fromSeq limit :=
+  window_checked stride budget ls file fromSeq limit hs r h
+
+/-- … and the index-free read is the specification: exactly the kept frames (messages and run ends)
+with `start ≤ seq ≤ fromSeq`, oldest first -/
+theorem seek_window_is_spec (budget : Nat) (ls : List Line) (fromSeq limit : Nat) (hs : Sorted ls) :
+    windowLinear budget ls fromSeq limit =
+      windowSpec (startSeq ls (boundaryGo fromSeq (fileLen ls) 0 ls) fromSeq limit budget) fromSeq ls :=
+  windowLinear_spec budget ls fromSeq limit hs
+
+/-- before the repair (only the LAST entry of an index was ever checked) an index with a wrong middle
+entry was accepted and the window silently lost frames; now the same read is refused -/
+theorem seek_index_wrong_before_repair :
+    ∃ (ls : List Line) (es : List Entry) (fromSeq limit : Nat),
+      ensure 2 ls (some es) = some es ∧
+      window false 2 100 ls (some es) fromSeq limit = some [] ∧
+      windowLinear 100 ls fromSeq limit = [3] ∧
+      window true 2 100 ls (some es) fromSeq limit = none :=
+  ⟨Rip.Cex.C04.Seek.six, Rip.Cex.C04.Seek.skewed, 3, 1, Rip.Cex.C04.Seek.skewed_index_loads,
+    Rip.Cex.C04.Seek.skewed_index_wrong_before_repair⟩
+
+/-- non-vacuity: a right index (as found, or rebuilt because it was missing or rejected) is used
+and answers -/
+example : window true 2 100 Rip.Cex.C04.Seek.six (some Rip.Cex.C04.Seek.good) 3 1 = some [3] ∧
+    window true 2 100 Rip.Cex.C04.Seek.six none 3 1 = some [3] :=
+  ⟨Rip.Cex.C04.Seek.good_index_answers.1, Rip.Cex.C04.Seek.good_index_answers.2.1⟩
+
+end Seek
 
 end Rip.Props.C04
